@@ -201,7 +201,12 @@ class StatefulDistributedSampler(torch.utils.data.distributed.DistributedSampler
             self.yielded = self.next_yielded
             self.next_yielded = None
         it = super().__iter__()
-        for idx in itertools.islice(it, self.yielded, None):
+        # The counter is reset above, when the iterator is requested, rather than inside the
+        # generator, whose body only starts to run at the first next().
+        return self._iterate(itertools.islice(it, self.yielded, None))
+
+    def _iterate(self, it):
+        for idx in it:
             self.yielded += 1
             yield idx
 
